@@ -437,13 +437,14 @@ def r8_constpat(src, log, consts):
 
 
 
-def r15_erase_generics(src, log, names):
+def r15_erase_generics(src, log, names, keep_lifetimes=()):
     """`Name<..>` -> `Name` for shim types whose type/lifetime parameters are not modelled (e.g. NsReader<&[u8]>,
-    BytesStart<'_>)."""
+    BytesStart<'_>); for names in keep_lifetimes only the type arguments are erased (ElementWriter<'a, W> -> ElementWriter<'a>)."""
     toks = lex(src); s = sig(toks)
     edits = []
     for k, i in enumerate(s):
-        if toks[i].kind == "ident" and toks[i].text in names and k + 1 < len(s) and toks[s[k + 1]].text == "<":
+        if toks[i].kind == "ident" and toks[i].text in (set(names) | set(keep_lifetimes)) and k + 1 < len(s) and toks[s[k + 1]].text == "<" \
+                and not (k > 0 and toks[s[k - 1]].kind == "ident" and toks[s[k - 1]].text in ("struct", "enum", "impl", "fn")):
             depth, j = 0, k + 1
             while j < len(s):
                 tx = toks[s[j]].text
@@ -454,7 +455,11 @@ def r15_erase_generics(src, log, names):
                     if depth == 0:
                         break
                 j += 1
-            edits.append((toks[s[k + 1]].start, toks[s[j]].end, ""))
+            if toks[i].text in keep_lifetimes:
+                lts = [toks[s[x]].text for x in range(k + 2, j) if toks[s[x]].kind == "lifetime"]
+                edits.append((toks[s[k + 1]].start, toks[s[j]].end, ("<" + ", ".join(lts) + ">") if lts else ""))
+            else:
+                edits.append((toks[s[k + 1]].start, toks[s[j]].end, ""))
     log["R15"] = log.get("R15", 0) + len(edits)
     return _replace(src, edits)
 
@@ -486,6 +491,56 @@ def r17_underscore_assign(src, log):
             edits.append((toks[i].start, toks[i].end, "let _"))
     log["R17"] = log.get("R17", 0) + len(edits)
     return _replace(src, edits)
+
+
+
+def r18_try_for_each(src, log):
+    """`E.try_for_each(|p| B)?`  ->  `{ let mut it__k = E; loop { match it__k.next() { Some(p) => { (B)?; } None => { break; } } } }`
+    (Iterator::try_for_each = call the closure for each item, stop at the first Err; followed by `?` the Err is
+    propagated exactly as `(B)?` does)."""
+    n = 0
+    while True:
+        toks = lex(src); m = match_brackets(toks); s = sig(toks)
+        hit = None
+        for k, i in enumerate(s):
+            if toks[i].text == "." and k + 2 < len(s) and toks[s[k + 1]].text == "try_for_each" and toks[s[k + 2]].text == "(":
+                o = s[k + 2]; c = m[o]; ck = s.index(c)
+                if ck + 1 >= len(s) or toks[s[ck + 1]].text != "?":
+                    raise ExtractError("try_for_each not followed by `?` (outside R18)")
+                cl = _closure_spans(toks, s, m, k + 2, ck)
+                if not cl or cl[0][0] != k + 3:
+                    raise ExtractError("try_for_each argument is not a closure literal (outside R18)")
+                b1, b2, bs, be = cl[0]
+                params = src[toks[s[b1]].end:toks[s[b2]].start].strip()
+                body = src[toks[s[bs]].start:toks[s[be]].end]
+                # receiver: walk back to an expression boundary
+                j = k - 1
+                while j >= 0:
+                    tj = toks[s[j]]
+                    if tj.text == "}" and toks[s[j + 1]].text not in (".", "?"):
+                        break
+                    if tj.text in ")]}":
+                        j = s.index(m[s[j]]) - 1
+                        continue
+                    if tj.text in "({[;,":
+                        break
+                    if tj.text == "=" or (tj.text == ">" and toks[s[j - 1]].text == "="):
+                        break
+                    if tj.kind == "ident" and tj.text in ("return", "in", "let", "match", "if"):
+                        break
+                    j -= 1
+                r0 = j + 1
+                recv = src[toks[s[r0]].start:toks[i].start].strip()
+                hit = (toks[s[r0]].start, toks[s[ck + 1]].end,
+                       "{ let mut it__%d = %s; loop /*@try_for_each*/ { match it__%d.next() { Some(%s) => { (%s)?; } None => { break; } } } }"
+                       % (n, recv, n, params, body))
+                break
+        if hit is None:
+            break
+        src = _replace(src, [hit])
+        n += 1
+    log["R18"] = log.get("R18", 0) + n
+    return src
 
 
 
@@ -681,6 +736,24 @@ def r7_apply(src, log, map_kind="result"):
                     log.setdefault("R7.fired", []).append("ok")
                     changed = True
                     break
+                if meth == "map_or":
+                    # Option::map_or(default, path):  (match X { Some(v) => path(v), None => default })
+                    o2 = s[k + 2]; c2 = m[o2]
+                    inner = src[toks[o2].end:toks[c2].start]
+                    parts = inner.split(",")
+                    if len(parts) != 2 or "|" in inner or "(" in inner:
+                        continue
+                    j = k - 1
+                    while j >= 0 and (toks[s[j]].kind == "ident" or toks[s[j]].text == "."):
+                        j -= 1
+                    r0 = j + 1
+                    recv = src[toks[s[r0]].start:t.start].strip()
+                    src = _replace(src, [(toks[s[r0]].start, toks[c2].end,
+                                          "(match %s { Some(v__) => %s(v__), None => %s })" % (recv, parts[1].strip(), parts[0].strip()))])
+                    log["R7"] = log.get("R7", 0) + 1
+                    log.setdefault("R7.fired", []).append("map_or")
+                    changed = True
+                    break
                 if meth not in ("map", "ok_or_else", "or_else", "then", "then_some", "map_err", "ok_or", "and_then", "unwrap_or_else"):
                     continue
                 o = s[k + 2]; c = m[o]
@@ -774,6 +847,7 @@ def r7_apply(src, log, map_kind="result"):
 
 RULES = {
     "R17": r17_underscore_assign,
+    "R18": r18_try_for_each,
     "R1": r1_attrs, "R2": r2_logs, "R3": r3_await, "R4": r4_select, "R5": r5_break, "R6": r6_index,
     "R12": r12_for,
 }
@@ -1022,7 +1096,8 @@ def _gen_function(kv, sections, repo, res: UnitResult, variant) -> list:
             sig_text = r3_await(sig_text, log)
         sig_text = r13_retname(sig_text, log)
         if "R15" in rules:
-            sig_text = r15_erase_generics(sig_text, log, set(kv.get("erase", "NsReader,BytesStart,BytesEnd").split(",")))
+            sig_text = r15_erase_generics(sig_text, log, set(kv.get("erase", "NsReader,BytesStart,BytesEnd").split(",")),
+                                          set(x for x in kv.get("erasetypes", "").split(",") if x))
         if kv.get("rename"):
             sig_text = re.sub(r"\bfn\s+%s\b" % re.escape(kv["fn"]), "fn " + kv["rename"], sig_text, count=1)
             log["rename"] = kv["rename"]
@@ -1037,7 +1112,8 @@ def _gen_function(kv, sections, repo, res: UnitResult, variant) -> list:
         elif r in ("R13", "R16"):
             pass
         elif r == "R15":
-            body = r15_erase_generics(body, log, set(kv.get("erase", "NsReader,BytesStart,BytesEnd").split(",")))
+            body = r15_erase_generics(body, log, set(kv.get("erase", "NsReader,BytesStart,BytesEnd").split(",")),
+                                      set(x for x in kv.get("erasetypes", "").split(",") if x))
         elif r == "R14":
             body = r14_constcall(body, log, set(kv.get("consts", "").split(",")))
         elif r == "R5":
